@@ -33,7 +33,7 @@ func genC03(t *rapid.T) hsConfig {
 		c.IKnowsR = rapid.IntRange(0, 2).Draw(t, "i_knows_r") != 0
 		c.RKnowsI = rapid.IntRange(0, 2).Draw(t, "r_knows_i") != 0
 		// a party that only knows the public halves of the pairing
-		c.Impostor = rapid.SampledFrom([]string{"", "", "initiator", "responder"}).Draw(t, "impostor")
+		c.Impostor = rapid.SampledFrom([]string{"", "", "", "initiator", "responder", "initiator", "responder", "initiator_fails", "responder_fails", "both_fail"}).Draw(t, "impostor")
 	} else {
 		c.Pattern = "XX"
 		// compatible ranges: rmin <= imin <= rmax, imin <= rmax <= imax
